@@ -181,15 +181,24 @@ finding("C13-span-in-foreign-source", "C13", [],
  "`... | filter 1 + 2 | take 3 4` returns `internal compiler error; tracked at https://github.com/PRQL/prql/issues/4317` with span source_id 0 (std.prql), start 2411: the span does not lie in the named source, and location/display are absent.",
  None)
 
+PANIC_FNS = {
+ "transforms-lineage-unwrap": ["lineage_or_default", "infer_lineage"],
+ "lowering-literal-row-unwrap": ["lower_table_ref"], "lowering-unwrap": ["lower_table_ref"],
+ "gen-expr-unwrap": ["translate_cid"], "gen-expr-result-unwrap": ["try_into_between"], "pq-gen-query-unwrap": ["compile_relation_instance"],
+ "ident-unwrap": ["from_path"], "names-unwrap": ["resolve_ident_wildcard"], "operators-unwrap": ["find_operator_impl", "translate_operator"],
+ "functions-unwrap": ["resolve_function_args"],
+}
 def panic_finding(slug, file, prefix, example, stage, extra="", input_kind=None, input_contains=None):
     fid = "C12-panic-" + slug
     narrow = ""
     if input_kind: narrow += f", input kind {input_kind}"
     if input_contains: narrow += f", input contains {input_contains!r}"
+    if slug in PANIC_FNS: narrow += f", raised in fn {' / '.join(PANIC_FNS[slug])}"
     FINDINGS.append({"id": fid, "property": "C12", "also_seen_by": [], "status": "open",
         "signature": f"panic raised in {file} whose message starts with {prefix!r} (matched on file and message prefix, not on the line){narrow}",
         "panic_file": file, "panic_message_prefix": prefix,
         **({"input_kind": input_kind} if input_kind else {}), **({"input_contains": input_contains} if input_contains else {}),
+        **({"panic_fn": PANIC_FNS[slug]} if slug in PANIC_FNS else {}),
         "description": f"{stage} panics instead of returning an error. {extra}".strip(),
         "example": example})
 
@@ -241,6 +250,12 @@ panic_finding("ident-unwrap", "prqlc-parser/src/parser/pr/ident.rs", "called `Op
 panic_finding("lowering-unwrap", "prqlc/src/semantic/lowering.rs", "called `Option::unwrap()` on a `None` value",
  "from [{id = 1, k = 5, k = -5}, {id = 4, k = -5}] | select {id}", "compile / pl_to_rq",
  "a relation literal whose row repeats a field name (found by the libFuzzer target src_stages).", input_kind="source", input_contains="[")
+panic_finding("lowering-literal-row-unwrap", "prqlc/src/semantic/lowering.rs", "called `Result::unwrap()` on an `Err` value",
+ "from t3 = ([take -1 {id = 0, a = 0}, {id = 0, a = 0, b = 0}]) | select {id, a}", "compile / pl_to_rq",
+ "an array in relation position whose element is not a tuple (here a function applied to a tuple): `row.kind.into_tuple().unwrap()` (found by token mutation of relation-literal programs at seed 2).", input_kind="source", input_contains="[")
+panic_finding("transforms-lineage-unwrap", "prqlc/src/semantic/resolver/transforms.rs", "called `Result::unwrap()` on an `Err` value",
+ "from t2 | select {a, b} | window ((rank a) > from) | select {a}", "compile / pl_to_rq",
+ "`lineage_or_default(body).unwrap()` in infer_lineage: the body of a `window` / `group` pipeline is not a relation (e.g. a comparison) - `expected .. to have table type` is unwrapped instead of returned (found by token mutation at seed 3).")
 panic_finding("transforms-unwrap", "prqlc/src/semantic/resolver/transforms.rs", "called `Option::unwrap()` on a `None` value",
  "PL JSON of `let distinct = rel -> (from t = _param.rel | group {t.*} (take 1))` with a span edited", "pl_to_rq on a PL JSON document",
  "found by the libFuzzer target json_pl.", input_kind="pl-json")
